@@ -454,6 +454,7 @@ ROUND9 = {
     'C08': 'Dictionaries that name the parameters in another order than the model; the native wrapper witnesses also run on their own (set_n_ids while something is fixed, PredictiveModel samples after re-fix histories); a wrapper exception on a valid history is a refutation; set_n_ids through the wrapper after the wrapped model was re-configured elsewhere.',
     'C11': 'Bounded: names, counts and simulation do not depend on the routes that were set before the final administration.',
     'C12': 'Bounded: composed filters of real sub-filters of every class and configuration (mixture filters with different numbers of kernels) score the sum of their parts.',
+    'C15': 'Bounded: virtual patients of an all-heterogeneous population for fewer / more patients than individuals (known finding).',
     'C18': 'Optimisation with runs that break: reported as missing, never as the numbers of another run.',
     'C20': 'The default observable of a later call on the same figure is the first one of that call\'s frame.',
 }
